@@ -798,12 +798,15 @@ def corr_link(chk, cases, cfg, real_draws):
             chk.violation("C10:into_step_input:UNRESOLVABLE-passed-to-the-derived-request",
                           "an unresolvable link value reaches the derived request", {**rep, "kwargs": repr(stub.kwargs)})
             continue
-        if not any(rm == ("err", "outOfModel") for _, dm in model_ex for _, rm in dm):
+        params_oom = any(rm == ("err", "outOfModel") for _, dm in model_ex for _, rm in dm)
+        if params_oom:
+            chk.feature("link:out-of-model")
+        if not params_oom:
             if [c for c, _ in impl_kwargs] != [c for c, _ in model_kwargs] or not all(
                     [n for n, _ in di] == [n for n, _ in dm] and all(same_json(vi, vm) for (_, vi), (_, vm) in zip(di, dm))
                     for (_, di), (_, dm) in zip(impl_kwargs, model_kwargs)):
                 chk.disagreement("link:into_step_input:kwargs", rep, model_kwargs, impl_kwargs)
-        if not out_of_model:
+        if not out_of_model and not params_oom:
             model_bodykw = None if m["bodyKwarg"] is None else ("v", decJ(m["bodyKwarg"]["v"]))
             if (impl_bodykw is None) != (model_bodykw is None) or (impl_bodykw and not same_json(impl_bodykw[1], model_bodykw[1])):
                 chk.disagreement("link:into_step_input:body-kwarg", rep, model_bodykw, impl_bodykw)
